@@ -363,7 +363,7 @@ void harness(void)
     (void) dctx;
     CHECK(p.error_flags == BINSON_ERROR_NONE, "C05 decode: no parser error");
 #endif
-    COVER(n > 2, "main: shape written and checked");
+    COVER(n >= 2, "main: shape written and checked");
 }
 #endif
 
